@@ -242,7 +242,10 @@ pub fn cancelled_keepalive_cases(rng: &mut Rng, n: usize) -> Vec<Case> {
         let (mut plan, secret) = full_plan(rng, false);
         let k = rng.range(1, 9) as usize;
         plan.pre_info = vec![];
-        plan.routing = if bi % 2 == 0 { vec![Step::AdapterDone, Step::Throttle(vec![WAns::Accept(k), WAns::Pending, WAns::Pending, WAns::Pending]), Step::Tick, Step::AdapterDone, Step::Throttle(vec![]), Step::Tick, Step::AdapterDone] }
+        plan.routing = if bi % 3 == 2 {
+                // the time-out Disconnect itself is cut short by the completion that follows: the connection has ended all the same
+                vec![Step::Tick, Step::Throttle(vec![WAns::Accept(k), WAns::Pending, WAns::Pending, WAns::Pending]), Step::Tick, Step::AdapterDone, Step::Throttle(vec![]), Step::AdapterDone, Step::AdapterDone] }
+            else if bi % 2 == 0 { vec![Step::AdapterDone, Step::Throttle(vec![WAns::Accept(k), WAns::Pending, WAns::Pending, WAns::Pending]), Step::Tick, Step::AdapterDone, Step::Throttle(vec![]), Step::Tick, Step::AdapterDone] }
             else { vec![Step::Throttle(vec![WAns::Accept(k), WAns::Pending, WAns::Pending, WAns::Pending]), Step::Tick, Step::AdapterDone, Step::Throttle(vec![]), Step::AdapterDone, Step::Tick, Step::AdapterDone] };
         let v = routed_verdicts(rng, &plan, true);
         let mut sc = scenario(rng, &plan, secret.clone(), vec![], v);
